@@ -564,6 +564,10 @@ func (c *Conn) ResetPollerEvent() {
 		c.mux.Lock()
 		if !c.closed {
 			if len(c.writeList) == 0 {
+				// read only from now on: the conn must not go on believing
+				// that the writing event is armed (a dial that connected at
+				// once is registered with it), the next backlog has to arm it.
+				c.isWAdded = false
 				_ = p.resetRead(fd)
 			} else {
 				_ = p.modWrite(fd)
